@@ -189,8 +189,12 @@ def opRun : P (List String) := do
   let nL := if rc.starts.length = 0 then 0 else rc.weights.length / rc.starts.length
   let perReal := nL * K * K + 2 * N * K
   let g := Mt19937.seed (UInt32.ofNat (seed % 4294967296).toNat)
-  let ds := g.draws (r * perReal)
-  let d : Nat → Float := fun t => ds.getD t 0.0
+  -- optional: scripted draws (returned cyclically) instead of the stream of the seed
+  let c ← get
+  let scripted ← (if c.pos < c.toks.size then flts else pure [])
+  let sa := scripted.toArray
+  let ds := if sa.size = 0 then g.draws (r * perReal) else #[]
+  let d : Nat → Float := fun t => if sa.size = 0 then ds.getD t 0.0 else sa.getD (t % sa.size) 0.0
   -- scripted evaluations: the m-th evaluation of the whole call returns script[m]
   -- (evaluations happen at sweeps 0,10,20,… of each realization; realization i has at most
   --  ⌈maxIt/10⌉ of them, so a global counter needs the realization lengths: the harness and
